@@ -47,7 +47,9 @@ type Program struct {
 	// (nil when nothing was expanded). Rule sets that follow helper calls
 	// themselves, with parameter binding, analyse this one.
 	Orig           *Program
-	Inlined        *Program // the same tree with the calls of new helper functions expanded in place (nil when there are none)
+	Inlined        *Program        // the same tree with the calls of new helper functions expanded in place (nil when there are none); the last stage of the normalisation pipeline
+	Rewritten      map[string]bool // files rewritten by a normalisation stage so far
+	Views          []*Program      // intermediate stages of the pipeline (each an equivalent program)
 	Fset           *token.FileSet
 	Pkgs           []*packages.Package          // module packages, sorted by path
 	All            map[string]*packages.Package // every package incl. dependencies
@@ -135,42 +137,102 @@ func Load(withTests bool, goos string) (*Program, error) {
 	if err != nil {
 		return nil, err
 	}
-	// expand calls of functions that are not in the baseline (helper extraction)
-	extra, inotes := inlineNewHelpers(p)
-	if len(extra) == 0 {
-		p.Normalisations = append(p.Normalisations, inotes...)
-		return p, nil
-	}
+	// normalisation pipeline (only on a tree that has functions the baseline does
+	// not know): expand the calls of new helpers in place, then split result
+	// structs / unroll loops over literals / cancel &-* pairs, and repeat, because
+	// each stage exposes work for the other (a closure argument becomes a closure
+	// bound to a local of the expanded body; a struct result becomes visible only
+	// once its helper is expanded). Every stage is type-checked again; a stage
+	// whose output does not type-check is dropped.
+	cur := p
+	var added []string
 	merged := map[string][]byte{}
 	for k, v := range overlay {
 		merged[k] = v
 	}
-	for k, v := range extra {
-		merged[k] = v
+	dump := func(extra map[string][]byte) {
+		if dir := os.Getenv("RS_DUMP_INLINE"); dir != "" {
+			for k, v := range extra {
+				os.WriteFile(filepath.Join(dir, strings.ReplaceAll(strings.TrimPrefix(k, srcRoot+"/"), "/", "__")), v, 0o644)
+			}
+		}
 	}
-	if dir := os.Getenv("RS_DUMP_INLINE"); dir != "" {
+	apply := func(extra map[string][]byte, inotes []string, what string) bool {
+		if len(extra) == 0 {
+			return false
+		}
+		next := map[string][]byte{}
+		for k, v := range merged {
+			next[k] = v
+		}
 		for k, v := range extra {
-			os.WriteFile(filepath.Join(dir, strings.ReplaceAll(strings.TrimPrefix(k, srcRoot+"/"), "/", "__")), v, 0o644)
+			next[k] = v
+		}
+		p2, err2 := load1(withTests, goos, srcRoot, next, notes)
+		if err2 != nil || len(p2.LoadErrors) > len(p.LoadErrors) || p2.MainTypeErrors > p.MainTypeErrors {
+			why := ""
+			if err2 != nil {
+				why = err2.Error()
+			} else if len(p2.LoadErrors) > 0 {
+				why = p2.LoadErrors[len(p2.LoadErrors)-1]
+			}
+			p.Normalisations = append(p.Normalisations, what+" abandoned (the rewritten sources do not type-check: "+why+")")
+			if dir := os.Getenv("RS_DUMP_INLINE"); dir != "" {
+				for k, v := range extra {
+					os.WriteFile(filepath.Join(dir, strings.ReplaceAll(strings.TrimPrefix(k, srcRoot+"/"), "/", "__")+".rejected"), v, 0o644)
+				}
+			}
+			return false
+		}
+		dump(extra)
+		merged = next
+		p2.Rewritten = map[string]bool{}
+		for k := range cur.Rewritten {
+			p2.Rewritten[k] = true
+		}
+		for k := range extra {
+			p2.Rewritten[k] = true
+		}
+		added = append(added, inotes...)
+		p2.Normalisations = append(append([]string{}, notes...), added...)
+		if cur != p {
+			p.Views = append(p.Views, cur)
+		}
+		cur = p2
+		return true
+	}
+	extra, inotes := inlineNewHelpers(p)
+	if !apply(extra, inotes, "expansion of new helper functions") {
+		p.Normalisations = append(p.Normalisations, inotes...)
+	}
+	if os.Getenv("RS_NO_DISSOLVE") == "" && os.Getenv("RS_NO_INLINE") == "" {
+		for round := 0; round < 3; round++ {
+			progress := false
+			ex2, n2 := dissolveNewStructs(cur)
+			if apply(ex2, n2, "second normalisation stage") {
+				progress = true
+			}
+			ex3, n3 := inlineNewHelpers(cur)
+			if apply(ex3, n3, "expansion of new helper functions (next round)") {
+				progress = true
+			}
+			if !progress {
+				break
+			}
 		}
 	}
-	p2, err2 := load1(withTests, goos, srcRoot, merged, notes)
-	if err2 != nil || len(p2.LoadErrors) > len(p.LoadErrors) || p2.MainTypeErrors > p.MainTypeErrors {
-		why := ""
-		if err2 != nil {
-			why = err2.Error()
-		} else if len(p2.LoadErrors) > 0 {
-			why = p2.LoadErrors[len(p2.LoadErrors)-1]
-		}
-		p.Normalisations = append(p.Normalisations, "expansion of new helper functions abandoned (the rewritten sources do not type-check: "+why+"); the original sources are analysed")
-		return p, nil
+	// all views are kept: the driver runs every rule set on the tree as written
+	// and, where something stays open, on the normalised views; an obligation
+	// discharged on either of several equivalent programs is discharged
+	if cur == p {
+		return p, nil // nothing to normalise: the tree as written is the only view
 	}
-	p2.Normalisations = append(p2.Normalisations, inotes...)
-	// both views are kept: the driver runs every rule set on the tree as written
-	// and, where something stays open, on the expanded view; an obligation
-	// discharged on either of two equivalent programs is discharged
-	p.Normalisations = append(p.Normalisations, inotes...)
-	p.Inlined = p2
-	p2.Orig = p
+	p.Normalisations = append(p.Normalisations, added...)
+	p.Inlined = cur
+	cur.Orig = p
+	for _, v := range p.Views {
+		v.Orig = p
+	}
 	return p, nil
 }
 
